@@ -265,6 +265,8 @@ where
             // - The contour is extended after following a segment.
             // - Hitting pos == orig_pos after search (B) indicates no continuation and
             //   terminates the loop.
+            #[cfg(feature = "verif-hooks")]
+            crate::verif::on_connect_step();
             mark_as_processed(&mut processed, &result_events, pos, contour_id);
 
             // pos advancement (A)
